@@ -3218,12 +3218,19 @@ class x86_mn(x86_mn_base):
                     if len(args_sample)<=0:
                         good_c = False
                         break
-                    if not x86_afs.imm in args_sample[-1] or args_sample[-1][x86_afs.ad]:
+                    # the immediate is the last operand, except when the
+                    # instruction only has immediates (far jmp/call:
+                    # offset, segment): they are taken in order
+                    index_im = -1
+                    if afs == noafs and len([d for d in dibs if d in
+                            [imm, ims, u08, s08, u16, s16, u32, s32]]) > 1:
+                        index_im = 0
+                    if not x86_afs.imm in args_sample[index_im] or args_sample[index_im][x86_afs.ad]:
                         log.debug("not imm 2")
                         good_c = False
                         break
                     taille, fmt, t = x86mndb.get_im_fmt(c.modifs, self.mnemo_mode, dib)
-                    r = args_sample.pop()
+                    r = args_sample.pop(index_im)
                     v = check_imm_size(r[x86_afs.imm], t)
                     if v is None:
                         log.debug("cannot encode this val in size %s %x!", t, int(r[x86_afs.imm]))
